@@ -218,6 +218,7 @@ func (c *Ctx) Finish(verifDir string, seed int64, checkerCmd string) int {
 		c.NotDecided = []string{}
 	}
 	c.Assumptions = append(c.Assumptions, "the analysed configuration (GOOS/GOARCH, tags) is the one shipped; third-party libraries behave as their documented signatures say")
+	c.Assumptions = append(c.Assumptions, "the inlined view (source-level expansion of unexported helpers the rules do not name, re-type-checked) is the same program as the source as written; it only ever rescues a report, under the vacuity minima of the rule group")
 	samples := make([]Obligation, 0, len(c.Obs))
 	samples = append(samples, c.Obs...)
 	fns := make([]string, 0, len(c.AnalysedFns))
